@@ -946,9 +946,7 @@ def emit_fn(u: Unit, fpath, impl_pat, name, spec: FnSpec, reach: bool, mutate):
         # its own obligations become undecided (never a violation)
         u.stubbed[key] = str(e)
         t = None
-    if key in u.stub and key not in u.stubbed:
-        u.stubbed[key] = "body rejected by the Verus front end"
-    if key in u.stubbed:
+    if key in u.stubbed:  # rewriting itself failed: stub from the raw signature
         emit_stub(u, text, header, spec, what, key, rw)
         u.fn_lines[key] = (line0, len(u.lines))
         u.items.append({"kind": "fn", "name": name, "impl": header, "file": fpath, "rewrites": ["STUBBED: " + u.stubbed[key]],
@@ -980,6 +978,15 @@ def emit_fn(u: Unit, fpath, impl_pat, name, spec: FnSpec, reach: bool, mutate):
                     t, kk = re.subn(r"\bSelf::%s\b" % re.escape(an), ty, t)
                     k += kk
             rw.note("R10b", k)
+    if key in u.stub:
+        # body rejected by the Verus front end: keep signature (after all rewrites) + contract only
+        u.stubbed[key] = "body rejected by the Verus front end"
+        emit_stub(u, t, header, spec, what, key, rw, rewritten=True)
+        u.fn_lines[key] = (line0, len(u.lines))
+        u.items.append({"kind": "fn", "name": name, "impl": header, "file": fpath, "rewrites": ["STUBBED: " + u.stubbed[key]],
+                        "sha": hashlib.sha256(text.encode()).hexdigest()[:12], "contracted": bool(spec.spec.strip()),
+                        "emitted_name": spec.opts.get("as", name), "stubbed": True})
+        return
     if mutate:
         t = mutate(fpath, name, t)
     if reach:
@@ -1037,18 +1044,19 @@ def fn_key(header, emitted_name: str) -> str:
     return owner + "::" + emitted_name
 
 
-def emit_stub(u, text, header, spec, what, key, rw):
+def emit_stub(u, text, header, spec, what, key, rw, rewritten=False):
     """signature + contract of the fn, body replaced: callers are still checked against the contract"""
     srw = Rewriter(text, what)
     m = mask(text)
     bo = find_body_open(m, 0)
     sig = text[:bo]
-    srw.t = sig
-    srw.r2_attrs_comments()
-    srw.r3_visibility()
-    srw.r5_pin_erasure()
-    srw.r14_extern_root() if hasattr(srw, "r14_extern_root") else None
-    sig = srw.t
+    if not rewritten:
+        srw.t = sig
+        srw.r2_attrs_comments()
+        srw.r3_visibility()
+        srw.r5_pin_erasure()
+        srw.r14_extern_root() if hasattr(srw, "r14_extern_root") else None
+        sig = srw.t
     if spec.opts.get("as"):
         sig = re.sub(r"\bfn\s+[A-Za-z_][A-Za-z0-9_]*", "fn " + spec.opts["as"], sig, count=1)
     if spec.spec.strip():
